@@ -9,7 +9,9 @@ import RxModel.Conv.ConvSpec
     src/ops/take_while.rs        TakeWhileObserver
     src/observer.rs              impl Observer for MutRc<Option<O>> / MutArc<Option<O>>  (the slot)
     src/subscriber.rs            Subscriber: Observer + Publisher (`p_is_closed = is_finished() || is_closed()`)
-    src/subject.rs               Subject::{next,error,complete}  (terminals only to entries that are not `p_is_closed()`)
+    src/subject.rs               Subject::{next,error,complete}  (every entry is called; before `fix:
+                                 Subject::error/complete hand the terminal to every subscriber` terminals
+                                 went only to entries that were not `p_is_closed()`: `hotEmitBefore`)
     src/observable/from_fn.rs    `create`: the closure is handed the `Subscriber` slot itself
     src/observable/from_iter.rs  ObservableIter::actual_subscribe: `while !is_finished { next }; complete()`
 
@@ -143,7 +145,8 @@ def slotTerm (c : Cutter) (w : StatTW) (t : Notif) : StatTW × List Notif :=
   if w.slot then soTerm c w t else (w, [])
 
 /-- `Subscriber::p_is_closed` = `is_finished() || is_closed()`, with
-    `MutRc<Option<O>>::is_finished` = `map_or(true, |o| o.is_finished())`. -/
+    `MutRc<Option<O>>::is_finished` = `map_or(true, |o| o.is_finished())` (what `retain` asks; the
+    terminal fan-out asked it too before the fix). -/
 def pIsClosed (c : Cutter) (w : StatTW) : Bool :=
   (if w.slot then soFinished c w else true) || !w.slot
 
@@ -152,13 +155,22 @@ def hotEmit (c : Cutter) (w : StatTW) : Notif → StatTW × List Notif
   | .next v => if w.srcOpen then slotNext c w v else (w, [])
   | t =>
     -- `if let Some(observers) = self.observers.take() { observers.into_iter()
-    --     .filter(|o| !o.p_is_closed()).for_each(|o| o.p_error(err)) }`
+    --     .for_each(|o| o.p_error(err)) }`: no filter in front of the slot
+    if w.srcOpen then slotTerm c { w with srcOpen := false } t else (w, [])
+
+/-- The hot `Subject` BEFORE `fix: Subject::error/complete hand the terminal to every subscriber`:
+    `observers.into_iter().filter(|o| !o.p_is_closed()).for_each(|o| o.p_error(err))` — a status observer
+    whose downstream had finished by itself never saw the source's terminal.  Not part of `step`; kept
+    for the record of the defect (Props/C14K.lean, last section). -/
+def hotEmitBefore (c : Cutter) (w : StatTW) : Notif → StatTW × List Notif
+  | .next v => if w.srcOpen then slotNext c w v else (w, [])
+  | t =>
     if w.srcOpen then
       if pIsClosed c w then ({ w with srcOpen := false }, [])
       else slotTerm c { w with srcOpen := false } t
     else (w, [])
 
-/-- The producer of `create` calls the `Subscriber` it was handed: no filter in front of the slot. -/
+/-- The producer of `create` calls the `Subscriber` it was handed (no `observers` list to be taken). -/
 def createEmit (c : Cutter) (w : StatTW) : Notif → StatTW × List Notif
   | .next v => slotNext c w v
   | t => slotTerm c w t
